@@ -84,6 +84,55 @@ pub struct Obs {
     pub extra_rotation_damage: Option<String>,
 }
 
+/// the application behind the language-binding interface (`CompassAppBindings`: what the Python package calls):
+/// built from a TOML string, batches handed over and returned as JSON strings, graph accessors by plain index
+pub struct Bind {
+    pub app: CompassApp,
+}
+impl routee_compass::app::bindings::CompassAppBindings for Bind {
+    fn from_config_toml_string(config_string: String, original_file_path: String) -> Result<Self, routee_compass::app::compass::compass_app_error::CompassAppError> {
+        let builder = CompassAppBuilder::default();
+        let app = CompassApp::try_from_config_toml_string(config_string, original_file_path, &builder)?;
+        Ok(Bind { app })
+    }
+    fn app(&self) -> &CompassApp {
+        &self.app
+    }
+}
+
+fn strip_nulls(v: &Value) -> Value {
+    match v {
+        Value::Object(m) => Value::Object(m.iter().filter(|(_, x)| !x.is_null()).map(|(k, x)| (k.clone(), strip_nulls(x))).collect()),
+        Value::Array(a) => Value::Array(a.iter().filter(|x| !x.is_null()).map(strip_nulls).collect()),
+        x => x.clone(),
+    }
+}
+
+/// the same configuration as a TOML text, through the binding constructor
+pub fn build_app_via_bindings(cfg_json: &Value) -> Result<CompassApp, String> {
+    use routee_compass::app::bindings::CompassAppBindings;
+    let text = match toml::to_string(&strip_nulls(cfg_json)) {
+        Ok(t) => t,
+        // (a value TOML cannot hold, e.g. an integer beyond i64: this world keeps its JSON configuration)
+        Err(_) => return build_app(cfg_json),
+    };
+    // (the loader resolves relative paths against the configuration file and wants to find it)
+    sim::with(|s| s.put_file("/sim/config.toml", text.as_bytes().to_vec()));
+    Bind::from_config_toml_string(text, "/sim/config.toml".to_string()).map(|b| b.app).map_err(|e| e.to_string())
+}
+
+/// one batch through `CompassApp::run`, or - `via_bindings` - through `CompassAppBindings::run_queries` (strings in,
+/// strings out)
+pub fn run_batch(bind: &Bind, via_bindings: bool, batch: Vec<Value>, cfg: Option<&Value>) -> Result<Vec<Value>, String> {
+    if !via_bindings {
+        return bind.app.run(batch, cfg).map_err(|e| e.to_string());
+    }
+    use routee_compass::app::bindings::CompassAppBindings;
+    let queries: Vec<String> = batch.iter().map(|q| q.to_string()).collect();
+    let out = bind.run_queries(queries, cfg.map(|c| c.to_string())).map_err(|e| e.to_string())?;
+    out.iter().map(|s| serde_json::from_str::<Value>(s).map_err(|e| format!("binding returned a string that is not JSON: {} ({})", e, s.chars().take(200).collect::<String>()))).collect()
+}
+
 pub fn build_app(cfg_json: &Value) -> Result<CompassApp, String> {
     let builder = CompassAppBuilder::default();
     let s = serde_json::to_string(cfg_json).unwrap();
@@ -234,11 +283,13 @@ pub fn execute(case: &Case, opts: ExecOpts, mut instr: Box<dyn Instrument>, fata
         if opts.explore_build {
             sim::set_quiet(false);
         }
-        let built = catch_unwind(AssertUnwindSafe(|| build_app(&case.world.config(false))));
+        let via_bindings = case.params.get("via_bindings").and_then(|x| x.as_bool()).unwrap_or(false);
+        let built = catch_unwind(AssertUnwindSafe(|| if via_bindings { build_app_via_bindings(&case.world.config(false)) } else { build_app(&case.world.config(false)) }));
         sim::set_quiet(true);
         match built {
             Ok(Ok(mut app)) => {
                 instr.after_build(&mut app, false);
+                let app = Bind { app };
                 let pool = harness::make_pool(case.workers);
                 let two_callers = case.params.get("two_callers").and_then(|x| x.as_bool()).unwrap_or(false) && case.batches.len() == 2;
                 if two_callers {
@@ -252,15 +303,15 @@ pub fn execute(case: &Case, opts: ExecOpts, mut instr: Box<dyn Instrument>, fata
                     let pool_ref = &pool;
                     sim::set_quiet(false);
                     let (r0, r1) = std::thread::scope(|sc| {
-                        let h0 = sc.spawn(move || catch_unwind(AssertUnwindSafe(|| pool_ref.install(|| app_ref.run(b0, cfg0.as_ref())))));
-                        let h1 = sc.spawn(move || catch_unwind(AssertUnwindSafe(|| pool_ref.install(|| app_ref.run(b1, cfg1.as_ref())))));
+                        let h0 = sc.spawn(move || catch_unwind(AssertUnwindSafe(|| pool_ref.install(|| run_batch(app_ref, via_bindings, b0, cfg0.as_ref())))));
+                        let h1 = sc.spawn(move || catch_unwind(AssertUnwindSafe(|| pool_ref.install(|| run_batch(app_ref, via_bindings, b1, cfg1.as_ref())))));
                         (h0.join(), h1.join())
                     });
                     sim::set_quiet(true);
                     for r in [r0, r1] {
                         obs.runs.push(match r {
                             Ok(Ok(Ok(v))) => Some(Ok(v)),
-                            Ok(Ok(Err(e))) => Some(Err(e.to_string())),
+                            Ok(Ok(Err(e))) => Some(Err(e)),
                             _ => None,
                         });
                     }
@@ -309,11 +360,11 @@ pub fn execute(case: &Case, opts: ExecOpts, mut instr: Box<dyn Instrument>, fata
                     }
                     instr.before_run(bi);
                     sim::set_quiet(false);
-                    let r = catch_unwind(AssertUnwindSafe(|| pool.install(|| app.run(b.clone(), run_cfg.as_ref()))));
+                    let r = catch_unwind(AssertUnwindSafe(|| pool.install(|| run_batch(&app, via_bindings, b.clone(), run_cfg.as_ref()))));
                     sim::set_quiet(true);
                     obs.runs.push(match r {
                         Ok(Ok(v)) => Some(Ok(v)),
-                        Ok(Err(e)) => Some(Err(e.to_string())),
+                        Ok(Err(e)) => Some(Err(e)),
                         Err(_) => None,
                     });
                 }
